@@ -1,4 +1,4 @@
-import Fatchoy.Model.C10Spec
+import Fatchoy.Model.C10Multi
 import Fatchoy.Drv.Util
 namespace Fatchoy.C10
 open Fatchoy.Drv
@@ -88,6 +88,28 @@ def parseOp : List String → Option Op
   | ["foreach"] => some .inOrder
   | _ => none
 
+/-- print an answer of the multi-iterator machine `mstep` -/
+def showMOut : MOut → String
+  | .base o => showOut o
+  | .created => "ok"
+  | .has b => toString b
+  | .entry kind e =>
+    (match kind with
+      | .entry => showEntry e
+      | .descEntry => showEntry e
+      | .key => toString e.1
+      | .descKey => toString e.1
+      | .value => toString e.2)
+  | .removed => "ok"
+  | .err err => showErr err
+  | .noIter => "bad-op"
+
+/-- the iterator op lines (`iter` / `hasnext` / `next` / `irm`) go through `mstep`, the machine of the
+`C10_multi_*` theorems; the slot table of the driver IS the `iters` field of its state -/
+def mop (st : DrvState) (op : MOp) : DrvState × String :=
+  let (st', o) := mstep params { m := st.m, iters := st.iters } op
+  ({ m := st'.m, iters := st'.iters }, showMOut o)
+
 def drvStep (st : DrvState) (line : String) : DrvState × String :=
   let t := st.m.root
   let ws := words line
@@ -117,38 +139,19 @@ def drvStep (st : DrvState) (line : String) : DrvState × String :=
     | _, _, _, _ => (st, "bad-op")
   | ["iter", s, kind] =>
     match s.toNat?, kindOf? kind with
-    | some s, some kind => ({ st with iters := setIter st.iters s (iterNew st.m kind) }, "ok")
+    | some s, some kind => mop st (.create s kind)
     | _, _ => (st, "bad-op")
   | ["hasnext", s] =>
-    match s.toNat?.bind (getIter st.iters) with
-    | some it => (st, toString (iterHasNext it))
+    match s.toNat? with
+    | some s => mop st (.hasNext s)
     | none => (st, "bad-op")
   | ["next", s] =>
     match s.toNat? with
-    | some s =>
-      match getIter st.iters s with
-      | some it =>
-        match iterNext st.m it with
-        | .ok (it', e) =>
-          ({ st with iters := setIter st.iters s it' },
-            match it.kind with
-            | .entry => showEntry e
-            | .descEntry => showEntry e
-            | .key => toString e.1
-            | .descKey => toString e.1
-            | .value => toString e.2)
-        | .error err => (st, showErr err)
-      | none => (st, "bad-op")
+    | some s => mop st (.next s)
     | none => (st, "bad-op")
   | ["irm", s] =>
     match s.toNat? with
-    | some s =>
-      match getIter st.iters s with
-      | some it =>
-        match iterRemove params st.m it with
-        | .ok (m', it') => ({ m := m', iters := setIter st.iters s it' }, "ok")
-        | .error err => (st, showErr err)
-      | none => (st, "bad-op")
+    | some s => mop st (.iremove s)
     | none => (st, "bad-op")
   | _ => (st, "bad-op")
 
